@@ -105,11 +105,16 @@ func execNegom(codec string, numConns, nHosts int, steps []string) string {
 		for {
 			conns := gocql.VerifC18eSessionConns(sess, true)
 			by := map[int][]*gocql.Conn{}
+			ok := true
 			for _, c := range conns {
 				h := cl.hostOf(gocql.VerifC18gConnHost(c))
 				by[h] = append(by[h], c)
+				if c.Closed() {
+					// a lost connection the pool has not removed yet, while its replacement is already
+					// being established: not settled
+					ok = false
+				}
 			}
-			ok := true
 			for h := 0; h < nHosts; h++ {
 				if len(by[h]) != numConns || len(cl.live(h)) != numConns {
 					ok = false
